@@ -400,13 +400,14 @@ class Interp:
             return VStr(z3.Concat(a.t, b.t))
         if name == 'add' and isinstance(a, (VTuple, VList)) and type(a) is type(b):
             return type(a)(a.items + b.items)
-        if name == 'mul' and isinstance(a, VList) and isinstance(b, VInt):
+        if name == 'mul' and isinstance(a, (VList, VTuple)) and isinstance(b, VInt):
             n = concrete_int(b)
             if n is not None:
-                return VList(a.items * n)
+                return type(a)(a.items * n)
             if len(a.items) == 1:
                 item = a.items[0]
-                return VSeq(z3.If(b.t > 0, b.t, 0), lambda i, item=item: item, None, 'list')
+                return VSeq(z3.If(b.t > 0, b.t, 0), lambda i, item=item: item, None,
+                            'list' if isinstance(a, VList) else 'tuple')
         if name == 'add' and isinstance(a, (VSeq, VTuple, VList)) and isinstance(b, (VSeq, VTuple, VList)):
             return self.B.seq_concat(self, a, b)
         sc = (VNone, VBool, VInt, VStr, VAny)
@@ -1081,6 +1082,14 @@ class Interp:
             r = san_f(to_pyval(a))
             self.ex.ctx.add(z3.Or(PyVal.is_PNone(r), PyVal.is_PS(r)))
             return VAny(r)
+        if qual == 'copy.deepcopy' and not kwargs and len(args) == 1 and isinstance(args[0], VObj) \
+                and args[0].tag == 'vector':
+            # deepcopy of a vector of scalars: a distinct object with the same abstract view (field by
+            # field; immutable scalars - NaN included - are kept as they are).  Trusted library model.
+            self.assumption('copy.deepcopy(vector): a distinct object with equal fields (value level)')
+            o = VObj(args[0].pycls, tag='vector')
+            o.fields.update(args[0].fields)
+            return o
         if qual == 'contracts.specs.hash_elem':
             from .model import hash_f
             a = args[0] if args else kwargs['x']
